@@ -272,3 +272,27 @@ def c16_7(ctx):
                 ctx.fail(f, p.node, 'a non-callable is answered with `%s`, expected self[%s]' % (p.text(), fun))
     if not ctx.findings and seen != {'call', 'item'}:
         ctx.fail(f, f.node, 'Dict.apply no longer distinguishes callables from keys')
+
+
+@obligation('C16.8', 'TABLES (guards by truth table)', '_dictattr:dictattr.__sub__ (single key)',
+            'd - k returns a new mapping without k and never touches d: a key that is not there is skipped by TESTING `key in res`, not by deleting and catching KeyError - __delitem__ answers a missing key by trying it as a dotted path into nested branches, which the shallow copy shares with d',
+            axioms=())
+def c16_8(ctx):
+    f = ctx.repo.fn('_dictattr:dictattr.__sub__')
+    dels = [n for n in body_nodes(f.node) if isinstance(n, ast.Delete) and any(isinstance(t, ast.Subscript) and U(t.value) == 'res' for t in n.targets)]
+    ctx.at_least(1, len(dels), 'del res[...] in dictattr.__sub__')
+    pm = parent_map(f.node)
+    for d in dels:
+        ctx.count(1, f.where(d))
+        key = U(d.targets[0].slice)
+        cur, guarded = d, False
+        while cur in pm and pm[cur] is not f.node:
+            par = pm[cur]
+            if isinstance(par, ast.If) and cur in par.body and NS('%s in res' % key) in [N(c) for c in conjuncts(par.test)]:
+                guarded = True
+            if isinstance(par, ast.Try):
+                guarded = guarded and False
+            cur = par
+        if not guarded:
+            ctx.fail(f, d, '`del res[%s]` is not guarded by `%s in res`: for an absent key __delitem__ falls back to a dotted-path deletion inside branches shared with the operand' % (key, key),
+                     witness="d = dictattr(a=dictattr(b=1)); d - 'a.b' must leave d unchanged")
